@@ -143,15 +143,24 @@ def run_program(tid: int, program: list, pool: list, hook, out: list) -> None:
             # F(description, value) like any other call.
             import gc
             from . import synth
-            _, ci, vi, n = op
+            _, ci, vi, n = op[:4]
+            clear = len(op) > 4 and op[4] == "clear"
             ent = pool[ci]
             for r in range(n):
+                # "clear": the other route of ClassChurn.tla - the look-alike class is consistent, gets its
+                # codecs, cache_clear() drops them, the class is collected
                 for f in (entity_writer, entity_reader):
                     try:
-                        f(synth.dying_class(ent["schema"]))
-                        out.append({"note": "bad_class_accepted", "id": f"t{tid}o{oi}"})
+                        f(synth.dying_class(ent["schema"], not clear))
+                        if not clear:
+                            out.append({"note": "bad_class_accepted", "id": f"t{tid}o{oi}"})
                     except BaseException:  # noqa: BLE001
                         pass
+                if clear:
+                    for f in (entity_reader, entity_writer):
+                        cc = getattr(f, "cache_clear", None)
+                        if cc:
+                            cc()
                 gc.collect()
                 cls = synth.fresh_class(ent["schema"])
                 ent2 = dict(ent, cls=cls,
